@@ -7,10 +7,12 @@ import (
 
 	"github.com/sboehler/knut/lib/amounts"
 	"github.com/sboehler/knut/lib/common/date"
+	"github.com/sboehler/knut/lib/common/dict"
 	"github.com/sboehler/knut/lib/common/predicate"
 	"github.com/sboehler/knut/lib/common/set"
 	"github.com/sboehler/knut/lib/journal"
 	"github.com/sboehler/knut/lib/model"
+	"github.com/sboehler/knut/lib/model/commodity"
 	"github.com/sboehler/knut/lib/model/registry"
 )
 
@@ -193,6 +195,17 @@ func (calc Calculator) isPortfolioAccount(a *model.Account) bool {
 	return a.IsAL() && calc.AccountFilter(a)
 }
 
+// Sum adds up per-commodity values in commodity name order. Floating point
+// addition is not associative: summing in map order gives results that differ
+// in the last bits from run to run (and print as 0.0% or -0.0%).
+func Sum(m map[*model.Commodity]float64) float64 {
+	var res float64
+	for _, c := range dict.SortedKeys(m, commodity.Compare) {
+		res += m[c]
+	}
+	return res
+}
+
 // perf = ( V1 - Outflow ) / ( V0 + Inflow )
 
 // Performance computes the portfolio performance.
@@ -201,18 +214,10 @@ func Performance(dpv *journal.Performance) float64 {
 		v0, v1          float64
 		inflow, outflow = dpv.PortfolioInflow, dpv.PortfolioOutflow
 	)
-	for _, v := range dpv.V0 {
-		v0 += v
-	}
-	for _, v := range dpv.V1 {
-		v1 += v
-	}
-	for _, v := range dpv.Inflow {
-		inflow += v
-	}
-	for _, v := range dpv.Outflow {
-		outflow += v
-	}
+	v0 += Sum(dpv.V0)
+	v1 += Sum(dpv.V1)
+	inflow += Sum(dpv.Inflow)
+	outflow += Sum(dpv.Outflow)
 	if v0 == v1 && inflow == 0 && outflow == 0 {
 		return 1
 	}
